@@ -622,6 +622,12 @@ def _extensions(ctx) -> list[Inst]:
         if set(lt) == set(st):
             insts.append(Inst(RULE, ln, construct, 'ok', msg=', '.join(sorted(lt)),
                               file=lf.module.relpath, line=lf.node.lineno, props=props))
+        elif not lt or not st:
+            # no `filename.endswith(<constants>)` dispatch found on one side (delegated to a helper, a table, a
+            # suffix map ..): nothing to compare
+            insts.append(Inst(RULE, ln, construct, 'unproven',
+                              msg=f'extension dispatch not in a form this rule reads (save: {sorted(st)}, load: {sorted(lt)})',
+                              file=lf.module.relpath, line=lf.node.lineno, props=props))
         else:
             insts.append(Inst(
                 RULE, ln, construct, 'violation',
